@@ -265,14 +265,21 @@ def miTerm (total sa sb : α) (nij ai bj : Nat) : α :=
   let logOuter : α := -log (ofNat ai * ofNat bj) + log sa + log sb
   cnm * (log (ofNat nij) - log total) + cnm * logOuter
 
-/-- `_mutual_info_score` from the contingency table `c` with marginals `a` (rows) and `b` (columns). -/
-def mutualInfoTab (c : List (List Nat)) (a b : List Nat) : α :=
+/-- `np.clip(x, 0.0, None)`: rounding noise below zero is cut off (nan passes through). -/
+def clip0 (x : α) : α := if lt x (ofNat 0) then ofNat 0 else x
+
+/-- the unclipped sum `mi.sum()` of `_mutual_info_score`. -/
+def mutualInfoSum (c : List (List Nat)) (a b : List Nat) : α :=
   let total : α := ofNat (c.map List.sum).sum
   let sa : α := ofNat a.sum
   let sb : α := ofNat b.sum
   tsum ((c.zip a).flatMap fun (row, ai) =>
     (row.zip b).filterMap fun (nij, bj) =>
       if nij = 0 then none else some (miTerm total sa sb nij ai bj))
+
+/-- `_mutual_info_score` from the contingency table `c` with marginals `a` (rows) and `b` (columns):
+    `np.clip(mi.sum(), 0.0, None)`. -/
+def mutualInfoTab (c : List (List Nat)) (a b : List Nat) : α := clip0 (mutualInfoSum c a b)
 
 def mutualInfoIdx (yr ye : List Nat) : α :=
   let c := contingency yr ye
@@ -374,8 +381,8 @@ structure Annot where
   estIvs : List (Rat × Rat)
   estLabs : List Label
 
-/-- common prologue: validate, detect empty input, sample both annotations. `none` = the early
-    `return 0., 0., 0.` of every metric. -/
+/-- common prologue: validate, detect empty input, sample both annotations. `none` = the early return of
+    every metric (`0., 0., 0.` for the three-valued ones, `0.0` for `rand_index` and `ari`). -/
 def prologue (A : Annot) (fs : Rat) : Py (Option (List Nat × List Nat)) := do
   validateStructure A.refIvs A.refLabs.length A.estIvs A.estLabs.length
   if A.refIvs.isEmpty ∨ A.estIvs.isEmpty then pure none
@@ -394,12 +401,12 @@ def pairwise (A : Annot) (fs beta : Rat) : Py Val := do
 
 def randIndex (A : Annot) (fs : Rat) : Py Val := do
   match ← prologue A fs with
-  | none => pure zeros3          -- sic: a 3-tuple
+  | none => pure (.rat 0)
   | some (yr, ye) => pure (← randIdx yr ye).toVal
 
 def ari (A : Annot) (fs : Rat) : Py Val := do
   match ← prologue A fs with
-  | none => pure zeros3          -- sic: a 3-tuple
+  | none => pure (.rat 0)
   | some (yr, ye) => pure (.rat (← adjustedRandIdx yr ye))
 
 def checkLen (yr ye : List Nat) : Py Unit :=
